@@ -28,6 +28,8 @@ Fresh(cfg) == [cfg |-> cfg,
                curIds |-> {},         \* ids of the chunk being exported
                failedIds |-> {},      \* ids of chunks whose Export returned an error
                sdheld |-> {},         \* ids Shutdown took out with q.Flush() (hook)
+               flushed |-> FALSE,     \* the final q.Flush() has happened (hook; an empty one is only recorded when cfg.exact)
+               tooLate |-> {},        \* ids enqueued after it (hook)
                expErr |-> FALSE,      \* some Export has returned an error
                inflight |-> FALSE,    \* an Export call is running
                snap |-> <<>>,         \* proc -> returned at the time of its ForceFlush / Shutdown call
@@ -52,6 +54,11 @@ Missing(m, S) == IF m.cfg.hooks THEN ((S \ m.handed) \ m.overwritten) \ m.ignore
 (* which are logged before the export goroutine can see the request)                                                    *)
 Aborted(m, id) == id \in DOMAIN m.batchOf /\ \E f \in m.failedIds \cap DOMAIN m.batchOf : m.batchOf[f] = m.batchOf[id]
 
+(* id was enqueued after the final q.Flush() (it is stranded in the ring, or a ForceFlush that was past its check took it   *)
+(* out and the stopped buffer swallowed it).  Exact when every Flush() is recorded; otherwise (a goroutine of an abandoned  *)
+(* scenario may be around, empty flushes are not attributed) the older over-approximation: its Emit returned after a         *)
+(* Shutdown call had begun and the final flush did not take it.                                                             *)
+TooLate(m, id) == IF m.cfg.exact THEN id \in m.tooLate ELSE id \in m.raced /\ id \notin m.sdheld
 FCause(m, p, id) ==
   IF m.cfg.hooks
     THEN IF Get(m.early, p, "no") = "processor" THEN "flush-missed-during-shutdown"
@@ -64,7 +71,7 @@ FCause(m, p, id) ==
          ELSE "flush-missed"
 SCause(m, p, id, first) ==
   IF m.cfg.hooks
-    THEN IF id \in m.raced /\ id \notin m.sdheld THEN "shutdown-missed-raced"   \* not taken by the final flush
+    THEN IF TooLate(m, id) THEN "shutdown-missed-raced"   \* enqueued after the final flush
          ELSE IF Get(m.early, p, "no") = "processor" THEN "shutdown-missed-during-shutdown"
          ELSE IF Aborted(m, id) THEN "missed-chunk-aborted"
          ELSE "shutdown-missed"
@@ -104,7 +111,8 @@ Step(m, e) ==
            IF m.sdCalls > 0 THEN {} ELSE {[kind |-> "ignored-without-shutdown", id |-> e.id]}>>
     [] e.ev = "Enq" ->       \* under the queue lock: e.full = ring was full, e.over = the record written over
          <<[m EXCEPT !.inq = Append(IF e.full THEN Without(@, {e.over}) ELSE @, e.id),
-                     !.overwritten = IF e.full THEN @ \cup {e.over} ELSE @],
+                     !.overwritten = IF e.full THEN @ \cup {e.over} ELSE @,
+                     !.tooLate = IF m.flushed THEN @ \cup {e.id} ELSE @],
            (IF e.full /\ (m.inq = <<>> \/ Len(m.inq) # m.cfg.qcap)
               THEN {[kind |-> "overwrote-below-capacity", id |-> e.id, len |-> Len(m.inq)]} ELSE {})
            \cup (IF e.full /\ m.inq # <<>> /\ e.over # Head(m.inq)
@@ -122,7 +130,8 @@ Step(m, e) ==
          <<[m EXCEPT !.inq = Without(@, ids),
                      !.nbatch = IF e.ev = "QFlushed" THEN n ELSE @,
                      !.batchOf = IF e.ev = "QFlushed" THEN [x \in (DOMAIN @) \cup ids |-> IF x \in ids THEN n ELSE @[x]] ELSE @,
-                     !.sdheld = IF e.ev = "QFlushed" THEN @ \cup ids ELSE @],
+                     !.sdheld = IF e.ev = "QFlushed" THEN @ \cup ids ELSE @,
+                     !.flushed = (@ \/ e.ev = "QFlushed")],
            (IF Len(e.ids) > Len(m.inq) \/ SubSeq(m.inq, 1, Len(e.ids)) # e.ids
               THEN {[kind |-> "dequeue-not-fifo", ids |-> e.ids, queue |-> m.inq]} ELSE {})
            \cup (IF e.ev = "QFlushed" /\ Len(e.ids) # Len(m.inq) THEN {[kind |-> "flush-left-records", queue |-> m.inq]} ELSE {})>>
